@@ -356,7 +356,9 @@ def shard_dense_perturbations(arg):
             rep.truncated = True
             break
         rng = fw.rng_for("c08d", seed, n, sid, i)
-        gens = members.group_of_circuit(n, members.random_clifford_ops(n, rng, 40))
+        # H on every qubit + 60 gates with many entangling ones: close to the uniform distribution over all stabilizer groups
+        # (measured for n = 5: ring class 9.7% vs exactly 10.3%); plain short circuits from |0..0> are 39% product states
+        gens = members.group_of_circuit(n, [("h", (q_,)) for q_ in range(n)] + members.random_clifford_ops(n, rng, 60, p2=0.5))
         gens = [list(g) for g in members.random_basis_change(gens, rng, steps=3 * n)]
         for _ in range(rng.choice([1, 1, 2])):
             j = rng.randrange(n)
